@@ -11,7 +11,7 @@ HASHSEEDS = {"quick": [0, 1], "thorough": [0, 1, 2, 3, 4, 5, 6, 7]}
 CASE_TIMEOUT = 12
 MAX_LANG = 1500
 RULE = ("random DSLs (families F1-F3) compiled by the real code into depth-bounded CFGs (depth 2-4, n_gram 1-3, forbidden "
-        "patterns) or size-bounded TTCFGs (first-order DSLs, size 3-5); weights uniform / random / skewed 10^-k / with ties / uniform except 1:10^3:10^6 on the deepest non-terminals (also on dedicated depth-4 one-type grammars stored deepest-first or shuffled); "
+        "patterns) or size-bounded TTCFGs (first-order DSLs, size 3-5); weights uniform / random / skewed 10^-k / with ties / uniform except 1:10^3:10^6 on the deepest non-terminals / half of the function rules at 1e-120 so that program probabilities underflow (also on dedicated depth-4 one-type grammars stored deepest-first or shuffled); "
         "enumerators heap search, bucket search, bee search, beap search, constant-delay search with random parameters.  The "
         "implementation's own rule table and its full output sequence are handed to the verified checker check_enum (membership "
         "by the model's traversal, duplicate test, length = size of the model's language).  A case is non-trivial when the "
@@ -27,6 +27,13 @@ def gen(rng, tier):
         cases.append(EG.gen_case(rng, enum=EG.ALL_ENUMS[i % len(EG.ALL_ENUMS)]))
     for i in range(12 if tier == "quick" else 120):
         cases.append(EG.gen_deep_case(rng, ["cd", "cd", "cd", "bps", "hs", "hs_bucket"][i % 6]))
+    # probabilities that underflow: half of the function rules weigh 1e-120 (depth 3-4)
+    for i in range(8 if tier == "quick" else 80):
+        c = EG.gen_deep_case(rng, ["hs", "hs", "bps", "hs_bucket"][i % 4])
+        c["weights"]["kind"] = "underflow"
+        c["grammar"]["rule_order"] = "asis"
+        c["kind"] = c["enum"] + "/cfg-depth4/underflow"
+        cases.append(c)
     return cases
 
 
